@@ -428,8 +428,11 @@ def run_threads(case, rng):
     sys.setswitchinterval(1e-6)
     injected = case['tier'] == 'thorough' and case['index'] % 2 == 0 and yield_injection(True)
     stats['yield_injection'] = int(bool(injected))
-    threads = [threading.Thread(target=worker, args=(number,)) for number in range(n_threads)]
-    probe_thread = threading.Thread(target=prober)
+    # (half of the batches: all threads carry one and the same name - names identify nothing)
+    names = {'name': 'worker'} if case['index'] % 2 else {}
+    threads = [threading.Thread(target=worker, args=(number,), **names)
+               for number in range(n_threads)]
+    probe_thread = threading.Thread(target=prober, **names)
     try:
         probe_thread.start()
         for thread in threads:
